@@ -2,6 +2,7 @@
    Packet level (Frag): what send() does when a transmission attempt finds the receiving end gone.
    Reference level (K/MK, proofs/KProofs.v): when exactly the receiving end is gone. *)
 From Coq Require Import ZArith List Lia.
+From IPC Require InprocSrv InprocSrvProofs.
 From IPC Require Import U64 Params Frag ParamsFacts FragProofs PipeProofs K KProofs KDed Prog Ideal IdealProofs.
 Import ListNotations.
 Open Scope Z_scope.
@@ -73,3 +74,33 @@ Example C09_ex_transit :
   = [RNew 0 1; RNew 2 3; RSent; RSent; RMsg 1%Z [(KRx, 4)]; RMsg 7%Z []; RDropped; RDropped; RSendErr].
 Proof. vm_compute. reflexivity. Qed.
 
+
+(* ---- the in-process transport's one-shot server (model: InprocSrv.v; every interleaving of accept()'s statements with the clients):
+   a client endpoint obtained by connect() sends successfully exactly while the receiving end exists - inside the server object
+   before accept, in the program's hands afterwards; once the server was dropped unaccepted (or the accepted receiver dropped)
+   every send of every client fails and queues nothing, although the registry still holds a sender of the channel ---- *)
+Module InprocLevel.
+Import InprocSrv InprocSrvProofs.
+Local Open Scope nat_scope.
+
+Theorem C09_inproc_send_result : forall s x s', step s (ISend x) = Some s' ->
+  sres s' = sres s ++ [rxlive s] /\ rxlive s' = rxlive s /\
+  (if rxlive s then queue s' = queue s ++ [x] else queue s' = queue s /\ sent s' = sent s).
+Proof. exact isrv_send_result. Qed.
+Print Assumptions C09_inproc_send_result.
+
+Theorem C09_inproc_send_after_drop_fails : forall pre s l ls s1 s2 x s3, run init pre = Some s ->
+  (l = IDropSrv \/ l = IDropRx) -> step s l = Some s1 -> run s1 ls = Some s2 -> step s2 (ISend x) = Some s3 ->
+  sres s3 = sres s2 ++ [false] /\ queue s3 = queue s2.
+Proof. exact isrv_send_after_drop_fails. Qed.
+Print Assumptions C09_inproc_send_after_drop_fails.
+
+Theorem C09_inproc_send_before_accept_ok : forall pre s x, run init pre = Some s -> ~ In IDropSrv pre -> ~ In IDropRx pre -> 0 < clients s ->
+  exists s', step s (ISend x) = Some s' /\ sres s' = sres s ++ [true] /\ queue s' = queue s ++ [x].
+Proof. exact isrv_send_before_accept_ok. Qed.
+Print Assumptions C09_inproc_send_before_accept_ok.
+
+Example C09_inproc_ex :
+  option_map (fun s => (sres s, queue s)) (run init [INew; IConnect; ISend 1; IDropSrv; ISend 2; IClone; ISend 3]) = Some ([true; false; false], [1]).
+Proof. vm_compute. reflexivity. Qed.
+End InprocLevel.
